@@ -14,7 +14,7 @@ import SophiaModel.Gen.SparqlDispatch
 
 namespace SophiaModel.Driver.C13
 open SophiaModel Proto
-open SophiaModel.SparqlSpec (TP Func Expr GName GP QDataset Query Key Mu)
+open SophiaModel.SparqlSpec (TP Func Expr CmpOp AOp GName GP QDataset Query Key Mu)
 
 /-! ### request parsing -/
 
@@ -22,6 +22,13 @@ def parseFunc : String → Option Func
   | "str" => some .str | "lang" => some .lang | "dt" => some .datatype
   | "isiri" => some .isIri | "isblank" => some .isBlank | "islit" => some .isLiteral
   | _ => none
+
+def parseN {α : Type} (p : List String → Option (α × List String)) : Nat → List String → Option (List α × List String)
+  | 0, toks => some ([], toks)
+  | n + 1, toks => do
+    let (a, r) ← p toks
+    let (l, r') ← parseN p n r
+    pure (a :: l, r')
 
 def parseExpr : Nat → List String → Option (Expr × List String)
   | 0, _ => none
@@ -40,18 +47,39 @@ def parseExpr : Nat → List String → Option (Expr × List String)
     | "same" :: rest => bin .sameTerm rest
     | "lt" :: rest => bin .lt rest
     | "not" :: rest => do let (a, r) ← parseExpr fuel rest; pure (.not a, r)
+    | "gt" :: rest => bin (.cmp .gt) rest
+    | "le" :: rest => bin (.cmp .le) rest
+    | "ge" :: rest => bin (.cmp .ge) rest
+    | "add" :: rest => bin (.arith .add) rest
+    | "sub" :: rest => bin (.arith .sub) rest
+    | "mul" :: rest => bin (.arith .mul) rest
+    | "neg" :: rest => do let (a, r) ← parseExpr fuel rest; pure (.neg a, r)
+    | "pos" :: rest => do let (a, r) ← parseExpr fuel rest; pure (.pos a, r)
+    | "if" :: rest => do
+      let (c, r1) ← parseExpr fuel rest
+      let (t, r2) ← parseExpr fuel r1
+      let (e, r3) ← parseExpr fuel r2
+      pure (.ite c t e, r3)
+    -- `in A n e₁ … eₙ` (n ≥ 1): the chain `inl A e₁ (inl A e₂ (… (const false)))`
+    | "in" :: rest => do
+      let (a, r1) ← parseExpr fuel rest
+      match r1 with
+      | n :: r2 => do
+        let k ← n.toNat?
+        if k == 0 then none
+        let (es, r3) ← parseN (parseExpr fuel) k r2
+        pure (es.foldr (fun e acc => .inl a e acc) (.const (SparqlSpec.boolTerm false)), r3)
+      | [] => none
+    -- `coalesce n e₁ … eₙ`: the chain ending in `err`
+    | "coalesce" :: n :: r2 => do
+      let k ← n.toNat?
+      let (es, r3) ← parseN (parseExpr fuel) k r2
+      pure (es.foldr (fun e acc => .coalesce e acc) .err, r3)
     | f :: rest => do
       let fn ← parseFunc f
       let (a, r) ← parseExpr fuel rest
       pure (.call fn a, r)
     | [] => none
-
-def parseN {α : Type} (p : List String → Option (α × List String)) : Nat → List String → Option (List α × List String)
-  | 0, toks => some ([], toks)
-  | n + 1, toks => do
-    let (a, r) ← p toks
-    let (l, r') ← parseN p n r
-    pure (a :: l, r')
 
 def parseTP (toks : List String) : Option (TP × List String) := do
   let (s, r1) ← Term.parseAll toks
@@ -88,6 +116,11 @@ def parseGP : Nat → List String → Option (GP × List String)
       let (e, r1) ← parseExpr (rest.length + 1) rest
       let (p, r2) ← parseGP fuel r1
       pure (.filter e p, r2)
+    | "fexists" :: n :: rest => do
+      let neg ← (if n == "1" then some true else if n == "0" then some false else none)
+      let (pat, r1) ← parseGP fuel rest
+      let (p, r2) ← parseGP fuel r1
+      pure (.filterExists neg pat p, r2)
     | "graph" :: rest => do
       let (g, r1) ← Term.parseAll rest
       let (p, r2) ← parseGP fuel r1
@@ -208,12 +241,15 @@ def termUnmodelled : Term → Bool
 
 def exprTerms : Expr → List Term
   | .const t => [t]
-  | .or a b | .and a b | .eq a b | .sameTerm a b | .lt a b => exprTerms a ++ exprTerms b
-  | .not a | .call _ a => exprTerms a
+  | .or a b | .and a b | .eq a b | .sameTerm a b | .lt a b | .cmp _ a b | .arith _ a b | .coalesce a b =>
+    exprTerms a ++ exprTerms b
+  | .not a | .call _ a | .neg a | .pos a => exprTerms a
+  | .ite a b c | .inl a b c => exprTerms a ++ exprTerms b ++ exprTerms c
   | _ => []
 
 def gpExprs : GP → List Expr
   | .filter e p => e :: gpExprs p
+  | .filterExists _ pat p => gpExprs pat ++ gpExprs p
   | .extend p _ e => e :: gpExprs p
   | .join l r | .leftJoin l r | .union l r | .minus l r => gpExprs l ++ gpExprs r
   | .graph _ p | .orderBy p | .project p _ | .distinct p | .reduced p | .slice p _ _ | .group p | .service p => gpExprs p
@@ -222,10 +258,21 @@ def gpExprs : GP → List Expr
 def gpTerms : GP → List Term
   | .bgp ps => ps.flatMap (fun tp => [tp.s, tp.p, tp.o])
   | .filter _ p => gpTerms p
+  | .filterExists _ pat p => gpTerms pat ++ gpTerms p
   | .extend p _ _ => gpTerms p
   | .join l r | .leftJoin l r | .union l r | .minus l r => gpTerms l ++ gpTerms r
   | .graph _ p | .orderBy p | .project p _ | .distinct p | .reduced p | .slice p _ _ | .group p | .service p => gpTerms p
   | _ => []
+
+/-- some EXISTS pattern uses an operator that the engine evaluates but for which the oracle has no
+substitution semantics (BIND, sub-select, DISTINCT … inside EXISTS): not compared -/
+def existsUnmodelled : GP → Bool
+  | .filterExists _ pat p =>
+    (!SparqlSpec.existsFragment pat && SparqlSpec.inFragment pat) || existsUnmodelled pat || existsUnmodelled p
+  | .filter _ p | .extend p _ _ | .graph _ p | .orderBy p | .project p _ | .distinct p | .reduced p
+  | .slice p _ _ | .group p | .service p => existsUnmodelled p
+  | .join l r | .leftJoin l r | .union l r | .minus l r => existsUnmodelled l || existsUnmodelled r
+  | _ => false
 
 /-- a value-level expression meets a datatype whose value space is not modelled -/
 def outOfScope (D : List Quad) (p : GP) : Bool :=
@@ -292,7 +339,7 @@ def attributeDev (D : List Quad) (q : Query) (impl : Fields) : String :=
 
 def answer (D : List Quad) (q : Query) : String :=
   let gp : Option GP := match q with | .select _ p => some p | .ask _ p => some p | _ => none
-  if (gp.map (outOfScope D)).getD false then "skip=1" else
+  if (gp.map (fun p => outOfScope D p || existsUnmodelled p)).getD false then "skip=1" else
   let impl := implFields D q
   let spec := specFields (SparqlSpec.evalQuery D) q
   let dev := if agrees spec impl then "none" else attributeDev D q impl
